@@ -50,6 +50,14 @@ def handle (op : String) (args : List String) : Option String :=
   | "steps_drain", [a, b, n, script] => do
     let s ← steps? a b n
     pure (" ".intercalate ((s.iter.drain (parseScript script)).map optFl))
+  | "steps_lens", [a, b, n, script] => do
+    let s ← steps? a b n
+    pure (" ".intercalate ((s.iter.len :: s.iter.drainLens (parseScript script)).map toString))
+  | "steps2d_lens", [ax, bx, nx, ay, by', ny, script] => do
+    let x ← steps? ax bx nx; let y ← steps? ay by' ny
+    let s : Steps2D Float := ⟨x, y⟩
+    let it : Iter2 Float := ⟨s, 0, s.len, 0, s.len⟩
+    pure (" ".intercalate ((it.len :: it.drainLens (parseScript script)).map toString))
   | "steps_width", [a, b, n] => do
     let s ← steps? a b n
     pure (fl s.divisionWidth)
